@@ -187,7 +187,7 @@ Q16 = [i for i, s in enumerate(SH16) if ((s["b1"], s["o"]) == (1, 1) or (s["cfg"
 @obligation(tier="quick", timeout=300, thorough_timeout=900, shards=SH16, quick_shards=Q16,
             samples=[{"i2": 3, "v0": 1, "v1": 2, "b1": True, "o": True}, {"i2": 2, "v0": 2**31, "v1": None, "b1": False, "o": False}, {"i2": 0, "v0": 2**31, "v1": 5, "b1": True, "o": True},
                      {"i2": 1, "v0": -2**31 - 1, "v1": 0, "b1": True, "o": False}, {"i2": 5, "v0": 0, "v1": -1, "b1": False, "o": True}],
-            symbolic=["v0: int, v1: Optional[int] — the variables of the first two requests (unbounded); the third request reuses v0"],
+            symbolic=["v0: int, v1: Optional[int] — the variables of the first two requests (unbounded); the third request reuses v1 (v0 when v1 is absent)"],
             selectors=["i2: the 3rd request: again the first, again the second, or one of four fixed probes (documents 0, 3, 10, 14)", "shard: cache configuration, first and second request, str/bytes spelling of the 2nd request (the 3rd uses the other one), operation name / failure selector"],
             bounds="sequences of 3 requests (every prefix is checked position by position) over 17 documents",
             note="every response of the sequence == the uncached engine's response to the same request; repeating a request gives the same response; failed/invalid requests leave no trace")
@@ -200,7 +200,8 @@ def c16_history(i2: int, v0: int, v1: Optional[int], b1: bool, o: bool) -> bool:
     third = [sh["first"], sh["second"]] + list(THIRD)
     idxs = [sh["first"], sh["second"], third[pick(i2, len(third))]]
     b1 = bool(sh["b1"])
-    vs = [v0, v1, v0]; bs = [False, b1, not b1]
+    # the third request shares its spelling with the first (when the second is spelled as bytes) but carries the SECOND request's variable value
+    vs = [v0, v1, v1 if v1 is not None else v0]; bs = [False, b1, not b1]
     o = bool(sh["o"])
     reset_caches()
     for k, idx in enumerate(idxs):
